@@ -154,6 +154,45 @@ func (l ncbiLayout) sep(r *rand.Rand) string {
 
 func fmtScore(f float64) string { return strconv.FormatFloat(f, 'g', -1, 64) }
 
+// fmtScoreVariant renders a score in one of the other spellings ParseFloat
+// reads as the same number: explicit sign, zero padding, trailing ".0" / ".",
+// exponent, fixed notation.
+func fmtScoreVariant(r *rand.Rand, f float64) string {
+	isInt := f == math.Trunc(f) && math.Abs(f) < 1e15
+	switch r.IntN(8) {
+	case 0:
+		if f >= 0 {
+			return "+" + fmtScore(f)
+		}
+	case 1:
+		if isInt { // zero padded, e.g. 010 or -012
+			if f < 0 {
+				return fmt.Sprintf("-%03d", int64(-f))
+			}
+			return fmt.Sprintf("%03d", int64(f))
+		}
+	case 2:
+		if isInt {
+			return fmt.Sprintf("%d.0", int64(f))
+		}
+	case 3:
+		if isInt {
+			return fmt.Sprintf("%d.", int64(f))
+		}
+	case 4:
+		return strconv.FormatFloat(f, 'e', -1, 64)
+	case 5:
+		if math.Abs(f) < 1e15 && math.Abs(f) > 1e-6 {
+			return strconv.FormatFloat(f, 'f', -1, 64)
+		}
+	case 6:
+		if isInt {
+			return fmt.Sprintf("%de0", int64(f))
+		}
+	}
+	return fmtScore(f)
+}
+
 // tokens returns the table as lines of tokens (header first).
 func (t *ncbiTable) tokens() [][]string {
 	var lines [][]string
@@ -173,7 +212,15 @@ func (t *ncbiTable) tokens() [][]string {
 }
 
 func (t *ncbiTable) render(r *rand.Rand, l ncbiLayout) []byte {
-	return renderTokens(r, t.tokens(), l)
+	lines := t.tokens()
+	if r.IntN(3) == 0 { // other spellings of the same numbers
+		for i := 1; i < len(lines); i++ {
+			for j := 1; j < len(lines[i]); j++ {
+				lines[i][j] = fmtScoreVariant(r, t.scores[i-1][j-1])
+			}
+		}
+	}
+	return renderTokens(r, lines, l)
 }
 
 func renderTokens(r *rand.Rand, lines [][]string, l ncbiLayout) []byte {
@@ -358,7 +405,7 @@ func c20Corrupt(c *Ctx) {
 				what = fmt.Sprintf("row %d: value added at %d", row, j)
 			case 2: // non-numeric score
 				j := 1 + r.IntN(len(lines[row])-1)
-				bad := pick(r, []string{"x", "1.2.3", "--1", "1e", "1,5", "abc", "0x", "1e+", "+-1"})
+				bad := pick(r, []string{"x", "1.2.3", "--1", "1e", "1,5", "abc", "0x", "1e+", "+-1", "0x10", "0b11", "0o17", "-0X7", "1/2", "½", "1e5.5", "٣"})
 				lines[row] = append([]string{}, lines[row]...)
 				lines[row][j] = bad
 				what = fmt.Sprintf("row %d: score %d replaced by %q", row, j, bad)
